@@ -9,6 +9,7 @@ import (
 
 	"github.com/yandex/mysync/internal/config"
 	"github.com/yandex/mysync/verif/fakezk"
+	"github.com/yandex/mysync/verif/world"
 )
 
 // C07 — switchover is resumable after a manager crash (or session loss) at any external call.
@@ -160,7 +161,7 @@ func c07Scenario(u *Unit, name string, sh c07Shape, fault *c07Fault) (*Tracker, 
 			}
 			s.WaitUntil(2*time.Minute, 500*time.Millisecond, func() bool {
 				h := lockHolder(s)
-				return h != "" && (h != mgr || fault.Kind == "session-expire" || fault.Kind == "zk-outage")
+				return h != "" && (h != mgr || fault.Kind == "session-expire" || fault.Kind == "zk-outage" || fault.Kind == "dcs-fail")
 			})
 			successor = lockHolder(s)
 		}
@@ -217,6 +218,8 @@ func c07Scenario(u *Unit, name string, sh c07Shape, fault *c07Fault) (*Tracker, 
 					succKind = "session-loss"
 				case fault.Kind == "zk-outage":
 					succKind = "after-outage"
+				case fault.Kind == "dcs-fail":
+					succKind = "same-manager"
 				case in != nil && in.Host == killedHost:
 					succKind = "same-host"
 				default:
@@ -261,6 +264,40 @@ func c07Scenario(u *Unit, name string, sh c07Shape, fault *c07Fault) (*Tracker, 
 // recorded as succeeded with the master on that very host (whoever resumed it, from whatever half-done state).
 func newFromHostMonitor(sc *Scen) {
 	s := sc.S
+	// "the highest-priority candidate whenever its lag is within the bound", at the moment it becomes observable: when a
+	// request without a target promotes X, no frozen member of the list other than the from-host that is at least as
+	// advanced as X (lag zero with respect to it) has a higher configured priority
+	s.W.Lock()
+	s.W.BeforeStmt = append(s.W.BeforeStmt, func(w *world.World, c *world.StmtCtx) {
+		if c.Class != "set_writable" || c.Host == s.CachedMaster() {
+			return
+		}
+		v, ok := s.Cached("switch")
+		var rec swRec
+		if !ok || json.Unmarshal([]byte(v), &rec) != nil || rec.To != "" || rec.From == "" {
+			return
+		}
+		prio := func(h string) int {
+			var nc struct {
+				Priority int `json:"priority"`
+			}
+			x, _ := s.Cached("ha_nodes/" + h)
+			_ = json.Unmarshal([]byte(x), &nc)
+			return nc.Priority
+		}
+		x := w.Servers[c.Host]
+		for _, h := range s.ActiveNodesCached() {
+			y := w.Servers[h]
+			if h == c.Host || h == rec.From || y == nil || !y.Up || !y.ReadOnly {
+				continue
+			}
+			if prio(h) > prio(c.Host) && x.Executed.SubsetOf(y.Executed) {
+				sc.Violate("C14", "higher-priority-candidate-passed-over", fmt.Sprintf("%s promotes %s (priority %d) for the request away from %s although the frozen member %s (priority %d) holds everything %s has", c.Caller, c.Host, prio(c.Host), rec.From, h, prio(h), c.Host), w.DescribeLocked())
+			}
+		}
+		sc.Cover("priority-choice-judged-at-promotion")
+	})
+	s.W.Unlock()
 	s.OnZK(func(r fakezk.Rec) {
 		if r.Path != NS+"/last_switch" || (r.Op != "create" && r.Op != "set") {
 			return
@@ -293,6 +330,24 @@ func c14Run(u *Unit) {
 		}
 		return -1
 	}, tierN(u.Job.Tier, 9, 1000), 6)
+	// ... and with one read of a host's priority failing inside the position collection (the attempt must not go on
+	// with a guessed priority)
+	base := fmt.Sprintf("c14-%d-from-prio", u.Idx)
+	tr, _ := c07Scenario(u, base+"-baseline", sh, nil)
+	if tr == nil {
+		return
+	}
+	n := 0
+	for _, b := range tr.OrderedBoundaries(func(b Boundary) bool {
+		return b.Kind == "dcs" && b.Class == "Get" && strings.HasPrefix(b.Host, "ha_nodes/")
+	}) {
+		if n >= tierN(u.Job.Tier, 6, 40) {
+			break
+		}
+		f := c07Fault{b, "dcs-fail", ""}
+		c07Scenario(u, fmt.Sprintf("%s-f%d-dcs-fail-%s", base, n, strings.ReplaceAll(b.Key(), "|", "_")), sh, &f)
+		n++
+	}
 }
 
 func c07Run(u *Unit) {
@@ -373,8 +428,10 @@ func c07Faulted(u *Unit, sh c07Shape, base string, from func([]Boundary) int, n,
 
 func init() {
 	register(&Prop{ID: "C14", Units: func(tier string) int { return tierN(tier, 8, 100) }, Run: c14Run,
-		Floor: func(string) []string { return []string{"fault:kill-after", "switch-from-recorded-as-succeeded"} },
-		Rule:  "cluster part: unit = shape (3-4 HA, wait count, force_switchover, manager location) with the master holding the highest priority and a switch --from request; a fault-free baseline, then one run per sampled (call from the move of the master key onwards x {manager dies with same-host / other-host successor, session loss}): the successor resumes the request while the from-host is an ordinary replica again; every success record of a from-request is judged against the recorded master; distinct by (n, manager location, force, fault, call class, successor kind)"})
+		Floor: func(string) []string {
+			return []string{"fault:kill-after", "fault:dcs-fail", "switch-from-recorded-as-succeeded", "priority-choice-judged-at-promotion"}
+		},
+		Rule: "cluster part: unit = shape (3-4 HA, wait count, force_switchover, manager location) with the master holding the highest priority and a switch --from request; a fault-free baseline, then one run per sampled (call from the move of the master key onwards x {manager dies with same-host / other-host successor, session loss}): the successor resumes the request while the from-host is an ordinary replica again; every success record of a from-request is judged against the recorded master; distinct by (n, manager location, force, fault, call class, successor kind)"})
 	register(&Prop{ID: "C07", Units: func(tier string) int { return tierN(tier, 40, 200) }, Run: c07Run,
 		Floor: func(string) []string {
 			return []string{"fault:kill-after", "fault:session-expire", "successor:same-host", "successor:other-host", "successor:session-loss", "successor:after-outage"}
